@@ -40,7 +40,7 @@ func (l LogNormal) ExKurtosis() float64 {
 
 // LogProb computes the natural logarithm of the value of the probability density function at x.
 func (l LogNormal) LogProb(x float64) float64 {
-	if x < 0 {
+	if x <= 0 {
 		return math.Inf(-1)
 	}
 	logx := math.Log(x)
